@@ -523,8 +523,10 @@ pub fn run(ctx: &Ctx, rep: &mut Report) {
                 );
             } else if is_harness_panic(p) {
                 rep.harness_error(format!("idx={} {}", idx, p));
-            } else if prop == "C09" && p.contains("!self.poisoned") || p.contains("!self.owner.poisoned") {
-                // documented refusal of a poisoned sender / receiver
+            } else if prop == "C09" && case.wfault.is_some() && (p.contains("!self.poisoned") || p.contains("!self.owner.poisoned")) {
+                // documented refusal: a sender that wrote part of a message refuses further traffic
+                // (only write faults can poison; sender and receiver have separate buffers)
+                let _ = side;
                 rep.count("poisoned-refusal");
             } else {
                 rep.violation(format!("{}|panic|{}|{}", prop, side, panic_site(p)), format!("{} ({}): {} panicked: {}", vt.name, mode, side, p), cj(&t));
